@@ -37,7 +37,7 @@ def gen_format(rng):
         else:
             d = rng.choice(DIRECTIVES)
             left = rng.random() < 0.35
-            width = rng.choice([None, None, None, 0, 1, 2, 3, 5, 8, 12, 20, 40])
+            width = rng.choice([None, None, None, 0, 1, 2, 3, 5, 8, 12, 20, 40, rng.randrange(41, 400), rng.choice([63, 64, 65, 66, 127, 128, 129, 255, 256, 257, 1000, 4097])])
             pieces.append(("dir", d, left, width))
     return pieces
 
@@ -173,7 +173,7 @@ def render(pieces, e, mode, sb, h_override=None):
             try:
                 v = directive_value(d, e, mode, sb, h_override)
             except NotJudged:
-                out.append(("any",))
+                out.append(("any", width or 0))
                 continue
             if d == "m":
                 # leading zeros not judged: compare numerically
@@ -181,7 +181,7 @@ def render(pieces, e, mode, sb, h_override=None):
                 continue
             if width is not None and len(v) < width:
                 if not v.isascii():
-                    out.append(("any",))
+                    out.append(("any", width))
                     continue
                 v = v + " " * (width - len(v)) if left else " " * (width - len(v)) + v
             out.append(("b", v.encode("utf-8", "surrogateescape")))
@@ -190,7 +190,7 @@ def render(pieces, e, mode, sb, h_override=None):
 
 def match_stream(actual, pos, chunks, terminator):
     """Match chunks against actual starting at pos; afterwards `terminator` must follow (None = end of output).
-    ('any',) matches any (bounded) stretch; ('octal', value, left, width) a number compared numerically.
+    ('any', minimum) matches any (bounded) stretch of at least `minimum` bytes; ('octal', value, left, width) a number compared numerically.
     Returns the position after the chunks, or None."""
     if not chunks:
         if terminator is None:
@@ -227,7 +227,8 @@ def match_stream(actual, pos, chunks, terminator):
                 return r
         return None
     # wildcard
-    for ext in range(0, 600):
+    lo = c[1] if len(c) > 1 else 0            # a padded field is at least `width` characters, hence bytes, long
+    for ext in range(lo, lo + 600):
         if pos + ext > len(actual):
             break
         r = match_stream(actual, pos + ext, rest, terminator)
@@ -405,7 +406,7 @@ def self_check():
 
 def run(ctx):
     ctx.rule = ("format strings of 1-8 pieces from literal text (ASCII, multi-byte), escapes \\a \\b \\f \\n \\r \\t \\v \\\\ \\0 \\NNN (<=177), %%, "
-                "directives p f h H P d s n i U G m y Y l with optional '-' flag and width 0-40; entries of every type and depth incl. links "
+                "directives p f h H P d s n i U G m y Y l with optional '-' flag and width 0-4097; entries of every type and depth incl. links "
                 "(to file, dir, fifo, dangling), setuid/setgid/sticky modes, foreign owners, hard links, multi-byte names; 19 starting-point "
                 "sets (r, ./r, r/, ., absolute, r/sub, ./r/sub/, link to dir, link to file, dangling link, file, several roots, r//, ./); "
                 "modes -P -H -L; evaluations = (format, entry) renderings; distinct = format string")
